@@ -36,6 +36,7 @@ RULE = ('random sparse matrices n<=9 in CSR/CSC/BSR/COO with integer, dyadic and
         'nonsymmetric real / complex matrices.  Non-trivial: at least one off-diagonal entry.')
 RULE += (' '
          'Block pseudo-inverses also for the blocks scaled by 2^-45 and 2^40, and for inverse / plain / inverse call sequences on one BSR object; condest also on 1D Poisson and a periodic stencil; numerically singular matrices skipped.')
+THOROUGH_ROUNDS = 5
 TRUSTED = ['SciPy sparsetools csr/bsr scale kernels, format conversions', 'NumPy eigvals/svd on the oracle side']
 PARTIAL = ['the 0.9 lower bound of the spectral-radius estimate: oracle only', 'block diagonal / inverse, diagonals, symmetric rescaling, truncation, filtering projection: correspondence + oracle, no theorem']
 HEADER = ('From Coq Require Import ZArith List PrimFloat.\nImport ListNotations.\n'
